@@ -31,5 +31,18 @@ SPEC = {
 }
 
 MUTATIONS = """
-(filled in after the dry-runs, see below)
+Dry-runs on a scratch copy (VERIF_REPO=/var/tmp/mC15a ./check C15 quick, known finding loaded), machine heavily loaded:
+M1 shard.Set no longer closes existing.Wait            -> red: C15_facts_ok broken + lost-wakeup, seq-add/wait/chk, gos-stuck
+                                                           (witness: eseq 4 0:get:3;1:gos:3:5:0;0:set:3:9;0:gos:3:1:0)
+M2 shard.Get slow path without the re-check            -> red: facts + hist-not-linearizable on real concurrent histories
+                                                           (47-159 hits per run over 3 seeds), channel-not-unique, values-weak-guarantee
+M3 Add overwrites (dropped `if !overwrite return`)     -> red: facts + seq-add (seq 2 0:set:1:1;0:add:1:2;...) + hist-not-linearizable
+M4 Values keeps placeholders (dropped Wait==nil filter)-> red: facts + seq-vals (seq 1 0:add:0:1;0:get:1;0:vals) + values-weak-guarantee
+M5 GetOrSet forgets m.m.Set after f()                  -> red: facts + gos-stuck (gosrace ...), lost-wakeup, limiter-unbalanced, seq-gos
+M6 shard.Set takes RLock instead of Lock               -> red: C15_facts_ok broken; the harness dies of Go's "concurrent map writes"
+                                                           (correspondence-broken, no failing input: the runtime aborts the process)
+M8 fast path returns first = (Wait != nil)             -> red: facts + early-wake, gos-f-not-once, gos-results-differ, hist-not-linearizable
+M9 GetOrSet `else if first || wait == nil`             -> facts unreadable (compound condition) -> thorough correspondence; red:
+                                                           gos-f-not-once, gos-results-differ, seq-gos
+H1 harmless: Set rewritten with early returns, `cur, found :=`, close before store, if/else-if -> green, facts regenerated identical
 """
